@@ -595,7 +595,70 @@ def self_hits(expr: ast.AST, mutable_globals: set, class_mutables: set, local_na
     return False
 
 
+def header_history(chk: Check) -> None:
+    """C12.DIFF.header-history-independent: the options row of a stream does not depend on streams created earlier in
+    the process.  For every field of the header in turn, stream A is created and enrolled, then stream B whose options
+    differ from A's in exactly that field; B's first frame must be what B writes in a fresh process.  (A memo keyed by an
+    equality that ignores a field, a shared default object, a class-level 'last options' are all found this way.)"""
+    from ..freeze import freeze
+
+    rule = "C12.DIFF.header-history-independent"
+    STREAMS = {1: "TripleStream", 2: "QuadStream", 3: "GraphStream"}
+    base = dict(phys=1, lt=1, gen=False, star=False, nd=False, name="A", sizes=(16, 8, 8), delim=True)
+    variants = {
+        "stream_name": dict(name="B"), "stream_name (default)": dict(name=None), "generalized_statements": dict(gen=True), "rdf_star": dict(star=True),
+        "namespace_declarations/version": dict(nd=True), "max_name_table_size": dict(sizes=(17, 8, 8)), "max_prefix_table_size": dict(sizes=(16, 9, 8)),
+        "max_datatype_table_size": dict(sizes=(16, 8, 9)), "logical_type": dict(lt=3), "physical_type": dict(phys=2, lt=2), "delimited": dict(delim=False),
+    }
+
+    def build(k: K.Kit, cfg: dict, integ: str) -> Any:
+        from ..values import Atom, sstr
+
+        pkw = dict(generalized_statements=cfg["gen"], rdf_star=cfg["star"], namespace_declarations=cfg["nd"], delimited=cfg["delim"])
+        if cfg["name"] is not None:
+            pkw["stream_name"] = sstr(Atom("stream-name-" + cfg["name"], nonempty=None))
+        preset = k.preset(*cfg["sizes"])
+        opts = k.options(params=k.params(**pkw), lookup_preset=preset, logical_type=cfg["lt"])
+        if integ == "rdflib":
+            stream = k.method(k.get(K.ST, STREAMS[cfg["phys"]]), "for_rdflib", opts)
+        else:
+            stream = k.stream(STREAMS[cfg["phys"]], k.generic_encoder(preset), opts)
+        k.method(stream, "enroll")
+        return k.method(k.attr(stream, "flow"), "to_stream_frame")
+
+    for integ in ("generic", "rdflib"):
+        for field, delta in variants.items():
+            for order in ("A then B", "B then A"):
+                first, second = (base, {**base, **delta}) if order == "A then B" else ({**base, **delta}, base)
+
+                def solo(it: Interp, second: dict = second) -> Any:
+                    return freeze(build(K.Kit(it), second, integ))
+
+                def with_history(it: Interp, first: dict = first, second: dict = second) -> Any:
+                    k = K.Kit(it)
+                    build(k, first, integ)
+                    return freeze(build(k, second, integ))
+
+                inst = f"{integ}: header of a stream created after one that differs only in {field} ({order})"
+                outs = []
+                for sc in (solo, with_history):
+                    res = list(explore(chk.program, sc, max_paths=4, generic_strings=True))
+                    chk.paths += len(res)
+                    chk.saw_functions(res[0][0])
+                    outs.append([(o[0], o[1] if o[0] == "ok" else res[0][0].exc_class_name(o[1].exc)) for _it, o in res])
+                if outs[0] == outs[1] and all(o[0] == "ok" for o in outs[0]):
+                    chk.ok(rule, inst, {"paths": len(outs[0])})
+                elif any(o[0] != "ok" for o in outs[0]):
+                    raise AnalysisError(f"C12 header-history: scenario raises on its own: {outs[0]}")
+                else:
+                    from .pipejob import first_diff
+
+                    chk.fail(rule, inst, "pyjelly.serialize.encode.encode_options:history", f"the first frame of the second stream differs from what the same stream writes in a fresh process: {first_diff(outs[1], outs[0])}")
+
+
 def check(chk: Check) -> None:
+    chk.rule("C12.DIFF.header-history-independent", "the options row a stream writes is what it writes in a fresh process, whatever stream (differing in exactly one header field) was created and enrolled before it", floor=40)
+    chk.part("header-history", lambda: header_history(chk))
     chk.rule("C12.OWN.shared-objects", "on the traces of serialising and parsing (both integrations, all entry points) no object created at import time is modified", floor=6)
     chk.rule("C12.OWN.shared-objects.sweep", "no function of the package assigns to / mutates a module-level or class-level mutable binding", floor=150)
     chk.rule("C12.OWN.fresh-instance-state", "two instances of every stateful class share no mutable object", floor=30)
